@@ -585,6 +585,82 @@ int run_main(int argc, char **argv) {
     return 0;
 }
 
+// ---- coverage-guided mode (libFuzzer) ----------------------------------------------------------
+// Every harness whose cases are decoded from a byte string can also be driven by libFuzzer: the fuzzer's bytes become
+// the case through H::from_fuzz (selector bytes first, entropy after them), the same run() with the same oracle and the
+// same allocation ledger decides it, and a failure writes the case in the ordinary replay format next to the statistics
+// (<out>.failcase) before trapping, so that the artifact replays in the rapidcheck build as well.
+// Build with -DVERIF_FUZZ_GENERIC -fsanitize=fuzzer,...; PBT_MAIN(H) expands to main() otherwise.
+template <class H>
+struct FuzzEntry {
+    static Ctx &ctx() {
+        static Ctx c;
+        return c;
+    }
+    static void flush() { ctx().write_stats(); }
+    static int  init() {
+        Ctx        &c   = ctx();
+        const char *out = getenv("VERIF_FUZZ_OUT");
+        if (out != nullptr) {
+            c.out_path = out;
+        }
+        const char *kn = getenv("VERIF_KNOWN");
+        if (kn != nullptr) {
+            std::istringstream is(kn);
+            std::string        t;
+            while (std::getline(is, t, ',')) {
+                if (!t.empty()) {
+                    c.known.insert(t);
+                }
+            }
+        }
+        global_ctx() = &c;
+        atexit(flush);
+        if (__sanitizer_set_death_callback != nullptr) {
+            __sanitizer_set_death_callback(death_cb);
+        }
+        return 0;
+    }
+    static int one(const uint8_t *data, size_t size) {
+        Ctx               &c = ctx();
+        typename H::Case   k;
+        if (!H::from_fuzz(data, size, k)) {
+            return -1; // not a case: keep it out of the corpus
+        }
+        Status st = exec_case<H>(c, k);
+        if (st == Status::Fail) {
+            fprintf(stderr, "ORACLE FAILURE class=%s %s\n", c.fail_cls.c_str(), c.fail_msg.c_str());
+            if (!c.out_path.empty()) {
+                write_file(c.out_path + ".failcase", c.fail_text);
+            }
+            c.write_stats();
+            __builtin_trap();
+        }
+        if ((c.evaluations & 0xFFF) == 0) {
+            c.write_stats();
+        }
+        return 0;
+    }
+};
+
+#ifdef VERIF_FUZZ_GENERIC
+#define PBT_MAIN(H)                                                                                                    \
+    extern "C" int LLVMFuzzerInitialize(int *, char ***) { return pbt::FuzzEntry<H>::init(); }                         \
+    extern "C" int LLVMFuzzerTestOneInput(const uint8_t *d, size_t n) { return pbt::FuzzEntry<H>::one(d, n); }
+#else
+#define PBT_MAIN(H)                                                                                                    \
+    int main(int argc, char **argv) { return pbt::run_main<H>(argc, argv); }
+#endif
+
+// selector bytes of from_fuzz: take one byte from the front (0 when exhausted)
+struct FuzzBytes {
+    const uint8_t *d;
+    size_t         n, i{0};
+    FuzzBytes(const uint8_t *d_, size_t n_) : d(d_), n(n_) {}
+    uint8_t              sel() { return i < n ? d[i++] : 0; }
+    std::vector<uint8_t> rest() { return std::vector<uint8_t>(d + i, d + n); }
+};
+
 // ---- generator helpers -----------------------------------------------------------------------
 // inRange collapses at small sizes; pin the size so ranges are explored from the first case on.
 template <class T>
